@@ -741,6 +741,11 @@ def c02(tier, seed):
     for d in rows:
         for e in etys:
             scns.append(view_scn("C02", d["api"], e, d["n"], d["l"]))
+            if d["api"] in SLICE_APIS:
+                # the same slice taken 1 and 3 elements into a larger buffer (no allocation-boundary alignment)
+                scns.append(view_scn("C02", d["api"], e, d["n"], d["l"], 3))
+                if e in ("u8", "owned"):
+                    scns.append(view_scn("C02", d["api"], e, d["n"], d["l"], 1))
     for n in big:
         for api in WHOLE_APIS:
             for e in etys:
@@ -784,6 +789,8 @@ def c10(tier, seed):
     for d in rows:
         for e in etys:
             scns.append(view_scn("C10", d["api"], e, d["n"], d["l"], 0, d["m"]))
+            if d["api"] in CHUNK_APIS and e in ("u8", "u32"):
+                scns.append(view_scn("C10", d["api"], e, d["n"], d["l"], 1 if e == "u8" else 3, d["m"]))
     rng = random.Random(seed)
     for n in ([16, 97] if tier == "quick" else [5, 6, 9, 12, 16, 33, 97, 1024]):
         ls = sorted(set([0, 1, n - 1, n, n + 1, 2 * n - 1, 2 * n, 3 * n + 2, 4 * n + 3] + [rng.randint(0, 4 * n + 3) for _ in range(4)]))
